@@ -383,3 +383,11 @@ PROPS['C20'] = dict(
     trusted_base=['Model/Api.lean is a hand-written model of api/app.py (wiring only)'],
     assumptions=['Flask/Werkzeug query parsing and jsonify float formatting are runtime behaviour covered by the correspondence only'],
 )
+
+
+# stretch theorems proved in separate files (same namespaces)
+PROPS['C01']['more_proof_modules'] = ['GeodeVerif.Proofs.C01b']
+PROPS['C01']['required_theorems'] += ['y_sign', 'y_sign_neg', 'hemisphere_follows_latitude', 'hemisphere_utm_auto', 'alpha_abs_bound']
+PROPS['C03']['more_proof_modules'] = ['GeodeVerif.Proofs.C03b']
+PROPS['C03']['required_theorems'] += ['latStep_deriv', 'latStep_contraction_global', 'exit_close_to_fixed_point',
+                                      'xyz2llh_exit_error_bound', 'fixed_point_exists', 'xyz2llh_llh2xyz_lat_error']
